@@ -13,8 +13,9 @@ the index vectors `rng.choice(range(len(p)), size=len(p), p=p, replace=True)` ar
                                           for next_cell, prev_cell in lag_cells]) for field in fields}
     resampled_atas[i][lag][field] = atas[lag][field][rng.choice(...)]
 
-OUTSIDE: the volume weights `p` (`_normalize`, `eval_date_resolution`, `lag - resolution`) — they only shape the
-distribution of the index draws and their number `len(p)`; the harness hands in the vectors as drawn.
+The probability vector `p` handed to `rng.choice` is DETERMINISTIC (a function of the slice): `ataWeights`
+below (`_normalize`, `eval_date_resolution`, `lag - resolution`); the harness compares it at the RNG interface.
+OUTSIDE: only the distribution `Generator.choice` realises from `p`.
 -/
 import Bermuda.Model.ResampleME
 namespace Bermuda.Resample
@@ -65,6 +66,51 @@ def ataTable (s : List Cell) (fields : List String) : Except Err Factors :=
       match mapMExcept (ataColumn (lagPairs cl)) fields with
       | .error e => .error e
       | .ok tbl => .ok (lp.1, tbl)) (lags.tail.zip lags)
+
+/-! ### the volume weights `p` handed to `rng.choice` -/
+
+/-- `eval_date_resolution(triangle)`: gcd of the differences of consecutive month ids of the sorted distinct
+evaluation dates (`None` with fewer than two dates) -/
+def evalResolution (s : List Cell) : Option Int :=
+  let ids := ((evalsOf s).mergeSort fun a b => Date.cmp a b != .gt).map monthToId
+  match (ids.tail.zip ids).map fun p => p.1 - p.2 with
+  | [] => none
+  | ds => some ((ds.foldl (fun g d => Nat.gcd g d.natAbs) 0 : Nat) : Int)
+
+/-- `_normalize(x)`: uniform when the sum is 0 (`1 / x.size` raises on an empty vector), else `x / x.sum()` -/
+def normalizeW (x : List Rat) : Except Err (List Rat) :=
+  if sumQ x == 0 then
+    if x.isEmpty then .error .other else .ok (x.map fun _ => 1 / (x.length : Rat))
+  else .ok (x.map fun v => v / sumQ x)
+
+/-- `cell[field]` as a number (`KeyError` when missing; `None`/arrays make numpy fail: outside) -/
+def fieldNum (c : Cell) (f : String) : Except Err Rat :=
+  match c.values.get? f with
+  | none => .error .keyError
+  | some (.int i) => .ok (i : Rat)
+  | some (.flt q) => .ok q
+  | some _ => .error .other
+
+/-- `volume_weight[lag][field]`: the values of the cells at `lag - resolution` (triangle order), cut to the number
+of factors, normalised -/
+def ataWeights (s : List Cell) (fields : List String) : Except Err Factors :=
+  match ataTable s fields with
+  | .error e => .error e
+  | .ok A =>
+    match evalResolution s with
+    | none => .error .typeError                              -- `lag - None`
+    | some res =>
+      mapMExcept (fun lt : Rat × List (String × List Rat) =>
+        let prev := s.filter fun c => c.devLag == lt.1 - (res : Rat)
+        match mapMExcept (fun fa : String × List Rat =>
+            match mapMExcept (fun c => fieldNum c fa.1) prev with
+            | .error e => Except.error e
+            | .ok col =>
+              match normalizeW (col.take fa.2.length) with
+              | .error e => Except.error e
+              | .ok p => Except.ok (fa.1, p)) lt.2 with
+        | .error e => .error e
+        | .ok t => .ok (lt.1, t)) A
 
 /-! ### resampling with given index draws -/
 
